@@ -168,7 +168,7 @@ void v_stream_free (vstream *s) { free (s->buf); free (s); }
 FILE *v_open_read (vstream *s, const unsigned char *data, size_t len, long limit, int as_error, size_t chunk, int buffered)
 {
   cookie_io_functions_t io = { vs_read, 0, 0, vs_close }; FILE *f;
-  free (s->buf); s->buf = malloc (len + 1); memcpy (s->buf, data, len); s->len = len; s->pos = 0; s->limit = limit;
+  free (s->buf); s->buf = malloc (len + 1); s->cap = len + 1; memcpy (s->buf, data, len); s->len = len; s->pos = 0; s->limit = limit;
   s->fail_errno = as_error; s->chunk = chunk; s->faults = 0;
   f = fopencookie (s, "r", io);
   if (!buffered) setvbuf (f, 0, _IONBF, 0);
